@@ -11,3 +11,4 @@ import JominiModel.Props.C14
 #print axioms Jomini.Props.C14.C14_roundtrip_containers
 #print axioms Jomini.Props.C14.C14_known_param_scalar_breaks
 #print axioms Jomini.Props.C14.C14_known_mixed_nested_operator_breaks
+#print axioms Jomini.Props.C14.C14_nested_roundtrip
